@@ -407,6 +407,12 @@ func (u *Universe) preludeFor(text string) string {
 	if used["strlen"] {
 		b.WriteString("(assert (forall ((s Str)) (! (>= (strlen s) 0) :pattern ((strlen s)))))\n")
 	}
+	if used["ix"] {
+		// element position of s[k] in the backing array; an uninterpreted
+		// symbol so that quantifier patterns over s[k] contain no arithmetic
+		b.WriteString("(declare-fun ix (Slice Int) Int)\n")
+		b.WriteString("(assert (forall ((s Slice) (k Int)) (! (= (ix s k) (+ (soff s) k)) :pattern ((ix s k)))))\n")
+	}
 	done := map[string]bool{}
 	var emit func(si *structInfo)
 	emit = func(si *structInfo) {
@@ -433,6 +439,7 @@ func (u *Universe) preludeFor(text string) string {
 		}
 	}
 	var lits []string
+	var byteFacts []string
 	for i, l := range u.litList {
 		n := fmt.Sprintf("lit%d", i)
 		if !used[n] && l != "" {
@@ -441,6 +448,11 @@ func (u *Universe) preludeFor(text string) string {
 		lits = append(lits, n)
 		fmt.Fprintf(&b, "(declare-const %s Str) ; %q\n", n, l)
 		fmt.Fprintf(&b, "(assert (= (strlen %s) %d))\n", n, len(l))
+		if used["strbyte"] {
+			for k := 0; k < len(l) && k < 16; k++ {
+				byteFacts = append(byteFacts, fmt.Sprintf("(assert (= (strbyte %s %d) %d))\n", n, k, l[k]))
+			}
+		}
 	}
 	if len(lits) > 1 {
 		b.WriteString("(assert (distinct " + strings.Join(lits, " ") + "))\n")
@@ -452,6 +464,11 @@ func (u *Universe) preludeFor(text string) string {
 		if inclFun[n] {
 			b.WriteString(u.funs[n])
 			b.WriteString("\n")
+		}
+	}
+	if inclFun["strbyte"] {
+		for _, f := range byteFacts {
+			b.WriteString(f)
 		}
 	}
 	for i, a := range u.axioms {
